@@ -397,7 +397,11 @@ pub fn run(ctx: &Ctx, replay: Option<&J>) -> i32 {
             ("k = 2\ng = x => x * k\noutput h = y => g(y) + k\noutput v = h(3)".to_string(), vec!["h".into(), "v".into()]),
             ("fact = n => if n <= 1 then 1 else n * fact(n - 1)\noutput fact\noutput x = fact(5)".to_string(), vec!["fact".into(), "x".into()]),
             (many, many_keys),
+            // `#name` is `inputs.name` whatever `inputs` means at that point
+            ("output r = (inputs => [#k, inputs.k, #missing])({k: 2})\noutput d = do {\n  inputs = {k: 3, j: 4}\n  return [#k, inputs.k, #j, #missing]\n}\noutput p = [{k: 5}] via (inputs => [#k, inputs.k])".to_string(), vec!["r".into(), "d".into(), "p".into()]),
         ];
+        // expected values of the last script (independent of the real inputs, which are empty here)
+        let shadow_expected = json!({"r": [2.0, 2.0, null], "d": [3.0, 3.0, 4.0, null], "p": [[5.0, 5.0]]});
         let mut jobs: Vec<(usize, &'static str)> = vec![];
         for i in 0..scripts.len() {
             for m in ["file", "inline", "stdin-e", "out-file"] {
@@ -446,7 +450,8 @@ pub fn run(ctx: &Ctx, replay: Option<&J>) -> i32 {
                     _ => ordered = false,
                 }
             }
-            if r.code != Some(0) || objs.len() != 1 || want != got || !ordered {
+            let values_ok = if *i == scripts.len() - 1 { objs.first().map(|o| json_eq(o, &shadow_expected)).unwrap_or(false) } else { true };
+            if r.code != Some(0) || objs.len() != 1 || want != got || !ordered || !values_ok {
                 ctx.violation(Violation {
                     kind: "hand-script".into(),
                     class: m.to_string(),
